@@ -20,7 +20,7 @@ ALL_FIELDS = ["init", "len", "empty", "cap", "avail", "full", "kind", "fifo", "i
               "id", "cat", "delim", "sym", "enc", "isenc", "elems", "integ"]
 
 SM_DEFAULT = dict(Vals=["nil", "a", "b"], MaxLen=3, Caps=[0], Kinds=["AND"], InitOpts=[[]],
-                  Fams=["list"], OptFlags=[], PushLens=[1, 2], DstCaps=[0], IdxMode="existing",
+                  Fams=["list"], OptFlags=[], PushLens=[1, 2], DstCaps=[0], DstOps=["push", "pop"], IdxMode="existing",
                   invariants=["TypeOK", "CapInv", "CapObs", "StepProps"],
                   properties=["FifoLatch", "DeadStaysDead"], depth=2, walks=300, wlen=40)
 
@@ -37,6 +37,7 @@ def sm_cfg(c, out):
              "  OptFlags = " + tla_str_set(c["OptFlags"]),
              "  PushLens = " + tla_set(map(str, c["PushLens"])),
              "  DstCaps = " + tla_set(map(str, c["DstCaps"])),
+             "  DstOps = " + tla_str_set(c["DstOps"]),
              '  IdxMode = "%s"' % c["IdxMode"],
              '  OUT = "%s"' % out,
              "INVARIANTS " + " ".join(c["invariants"] + (["Emit"] if out else [])),
@@ -179,7 +180,61 @@ def sm_trace_stage(work, v, findings, prop, harness, name, t, fields, acc):
                                    lines=[dict(call=e.get("c"), ret=e.get("ret")) for e in lines[1:5]]))
 
 
-def sm_check(work, v, prop, tier, tables, traces, fields, design_props, note):
+def frame_stage(work, v, findings, prop, harness, mode, acc, seqs=100, limit=400):
+    """Reflection sweep over the whole exported method set; the recorded
+    events are validated against the frame rules of spec/Frame.tla."""
+    evf = work.path("sweep_%s.ndjson" % mode)
+    rc, out, _ = lib.run([harness, "sweep", "-mode", mode, "-out", evf, "-seed", str(lib.seed()),
+                          "-seqs", str(seqs), "-limit", str(limit)], timeout=900)
+    if rc != 0:
+        raise Infra("sweep %s failed: %s" % (mode, out[-2000:]))
+    g = json.loads(out.strip().splitlines()[-1])
+    result = work.path("frame_%s.json" % mode)
+    cfg = "\n".join(["SPECIFICATION FSpec", "CONSTANTS", '  EVENTFILE = "%s"' % evf, '  RESULT = "%s"' % result,
+                     "INVARIANT Done", "CHECK_DEADLOCK FALSE", ""])
+    res = lib.tlc(work, "frame_" + mode, "Frame", cfg, workers=1, timeout=1200)
+    if not os.path.exists(result):
+        raise Infra("Frame validation wrote no result")
+    r = json.load(open(result))
+    if r["consumed"] != r["lines"] or r["consumed"] < g["events"]:
+        raise Infra("Frame validation consumed %s of %s lines" % (r["consumed"], r["lines"]))
+    acc["states"] += res["distinct"]
+    acc["transitions"] += g["events"]
+    acc["evaluations"] += g["events"]
+    acc["trace_events"] += g["events"]
+    acc["traces"] += 1
+    acc["tv"].append(dict(name="frame-" + mode, events=g["events"], methods_enumerated=len(g["methods"]),
+                          rejected_lines=len(r["bad"]), unmodelled_methods=r["unmodelled"], tlc_wall_s=round(res["wall"], 1)))
+    acc.setdefault("methods", set()).update(g["methods"])
+    if r["bad"]:
+        lines = lib.read_ndjson(evf)
+        seen = {}
+        for b in r["bad"]:
+            ln = b["line"]
+            start = ln - 1
+            while start > 0 and lines[start - 1]["ev"] != "reset":
+                start -= 1
+            evs = [e for e in lines[start:ln] if e["ev"] == "call"]
+            last = evs[-1]
+            rec = dict(property=prop, kind="sweep", events=evs, rules=b["rules"],
+                       detail=["%s.%s(%s) on %s [%s]: violates %s" % (last["typ"], last["method"], last["args"], last["recv"], last["mode"], ",".join(b["rules"])),
+                               "panic=%r live %s->%s ronly %s->%s snapshot-unchanged=%s nonzero=%s errres=%s again=%s health=%s" % (
+                                   last["panic"], last["prelive"], last["postlive"], last["prero"], last["postro"],
+                                   last["pre"] == last["post"], last["nonzero"], last["errres"], last["again"], last["health"])],
+                       **{"class": "%s/%s.%s/%s" % (prop, last["typ"], last["method"], "+".join(b["rules"]))})
+            k = rec["class"]
+            seen[k] = seen.get(k, 0) + 1
+            if seen[k] <= 2:
+                triage(v, findings, prop, harness, rec, None)
+    else:
+        lines = lib.read_ndjson(evf, limit=40)
+        smp = [e for e in lines if e["ev"] == "call"][7:9]
+        for e in smp:
+            acc["samples"].append(dict(kind="frame-event", mode=e["mode"], receiver=e["recv"], method=e["typ"] + "." + e["method"],
+                                       args=e["args"], snapshot_unchanged=e["pre"] == e["post"], panic=e["panic"]))
+
+
+def sm_check(work, v, prop, tier, tables, traces, fields, design_props, note, frames=()):
     findings = Findings()
     harness = lib.build_harness(work)
     acc = dict(states=0, transitions=0, generated=0, traces=0, evaluations=0, trace_events=0,
@@ -190,6 +245,8 @@ def sm_check(work, v, prop, tier, tables, traces, fields, design_props, note):
         sm_table_stage(work, v, findings, prop, harness, name, cc, fields, acc)
     for name, t in traces:
         sm_trace_stage(work, v, findings, prop, harness, name, t, fields, acc)
+    for fr in frames:
+        frame_stage(work, v, findings, prop, harness, acc=acc, **fr)
     v.cov = dict(
         states=acc["states"], transitions=acc["transitions"],
         traces_validated_against_impl=acc["traces"],
@@ -204,6 +261,7 @@ def sm_check(work, v, prop, tier, tables, traces, fields, design_props, note):
         tlc_generated_states=acc["generated"], transitions_replayed_from_built_state=acc["transitions_replayed"],
         bounded_instances=acc["instances"], trace_validation=acc["tv"],
         observables_compared=fields, design_properties_checked_by_tlc=design_props,
+        methods_enumerated_by_reflection=sorted(acc.get("methods", [])),
         explanation=note)
     v.assumptions = [
         "exhaustive only within the stated constants; beyond them coverage is seeded-random and validated, not exhaustive",
@@ -237,6 +295,171 @@ def c01(work, v, tier):
                     "transition, every path to the stated depth and seeded random walks replayed on the real Stack with "
                     "Len/Index(-L-1..L+1)/Front/Back/IsEmpty/raw slots compared after every step; random longer "
                     "histories recorded from the real Stack accepted line by line by StackageTrace.tla")
+
+
+C03_FIELDS = ["init", "len", "cap", "avail", "full", "elems", "integ"]
+
+
+@check("C03")
+def c03(work, v, tier):
+    q = tier == "quick"
+    tables = [("cap", dict(Caps=[1, 2, 3], MaxLen=3, Fams=["list", "marshal"], depth=2, walks=300, wlen=50)),
+              ("xfer", dict(Caps=[1, 2, 3], Vals=["nil", "a"], MaxLen=3, Fams=["grow", "transfer", "marshal"],
+                            DstCaps=[0], DstOps=["push", "pop"], depth=2, walks=300, wlen=50)),
+              ("nocap", dict(Caps=[0], MaxLen=3, Vals=["nil", "a"], Kinds=["AND", "LIST", "BASIC"], Fams=["grow", "marshal"], depth=2, walks=50))]
+    traces = [("rand", dict(traces=150 if q else 2000, len=80, fams=["list", "transfer", "marshal"], caps="1,2,3,4,5,0", maxlen=12))]
+    if not q:
+        tables = [("cap", dict(Caps=[1, 2, 3, 4], MaxLen=4, Fams=["list", "marshal"], depth=2, walks=3000, wlen=80)),
+                  ("xfer", dict(Caps=[1, 2, 3], MaxLen=3, Fams=["grow", "transfer", "marshal"], Kinds=["AND", "LIST"],
+                                DstCaps=[0, 2], DstOps=["push", "pop"], depth=2, walks=3000, wlen=80)),
+                  ("nocap", dict(Caps=[0], MaxLen=4, Kinds=["AND", "OR", "NOT", "LIST", "BASIC"], Fams=["grow", "marshal"], depth=3, walks=500))]
+        traces.append(("boundary", dict(traces=1000, len=120, fams=["list", "transfer", "marshal"], caps="1,2,3", maxlen=6, salt=2)))
+    return sm_check(work, v, "C03", tier, tables, traces, C03_FIELDS,
+                    ["CapInv (Len <= cap in every reachable state of both handles)", "CapObs (Cap/Avail/IsFull agree with (cap, Len))",
+                     "StepProps: no enabled transition leaves a state with Len > cap; Insert on a full stack is a stutter"],
+                    "capacity: all growth actions (Push batches, Insert, Transfer-into, Marshal-into) interleaved with "
+                    "Pop/Remove/Reset around the boundary; Len/Cap/Avail/IsFull and the raw slots compared after every step")
+
+
+C08_FIELDS = [f for f in ALL_FIELDS if f != "cannest"]
+
+
+@check("C08")
+def c08(work, v, tier):
+    q = tier == "quick"
+    tables = [("idx", dict(Caps=[0, 3], InitOpts=IDX4, MaxLen=3 if q else 4, IdxMode="all", Fams=["list", "query"],
+                           depth=2 if q else 2, walks=300 if q else 3000, wlen=40)),
+              ("idxkinds", dict(Caps=[0], Kinds=["OR", "NOT", "LIST", "BASIC"], InitOpts=[[], ["neg", "fwd"]], Vals=["nil", "a"],
+                                MaxLen=2 if q else 4, IdxMode="all", Fams=["list", "query"], PushLens=[1], depth=2, walks=100))]
+    traces = [("rand", dict(traces=150 if q else 2000, len=60, fams=["list", "idxopts", "query"], mode="all"))]
+    return sm_check(work, v, "C08", tier, tables, traces, C08_FIELDS,
+                    ["StepProps over IdxMode=all: every index in -(L+1)..L+1 plus the MinInt/MaxInt stand-ins is an enabled call; "
+                     "a call that addresses no element is a stutter returning failure (Lookup semantics of negative / forward indices)"],
+                    "index robustness: every method taking an int x every index class x lengths 0..4 x the four index-option sets; "
+                    "after each call IsInit, Kind, Len, every Index, the configuration record (VerifDump) and the raw slots are re-validated. "
+                    "value robustness: every method with an any / ...any / Operator parameter (found by reflection) x a catalogue of 38 awkward "
+                    "Go values, each followed by a usability probe (String/Unmarshal/IsEqual/Index/Traverse/Less/Valid) -- Frame.tla's AwkwardRule",
+                    frames=[dict(mode="awkward")])
+
+
+RO_NOTE = ("read-only frame: (1) the state machine with every call family enabled from read-only and writable initial "
+           "configurations (TLC checks ReadOnlyFrame on every enabled transition; table and traces replayed on the real Stack); "
+           "(2) every exported method of Stack and Condition, enumerated by reflection, called with synthesised argument tuples on "
+           "read-only receivers singly and in random sequences; each recorded event is validated by Frame.tla's ReadOnlyRule, then the "
+           "flag is cleared (state must equal the state at flag-set time) and a setter must work again (ProbeRule)")
+
+
+ALLFL = ["paren", "fold", "nspad", "lonce", "neg", "fwd", "ronly", "nnest"]
+
+
+@check("C09")
+def c09(work, v, tier):
+    q = tier == "quick"
+    tables = [("ro-list", dict(Caps=[0, 2], InitOpts=[["ronly"]], Vals=["nil", "a"], MaxLen=2 if q else 3, IdxMode="all",
+                               Fams=["list", "query", "marshal", "opts"], OptFlags=["ronly"], PushLens=[1],
+                               depth=2, walks=200 if q else 2000, wlen=30)),
+              ("ro-defrag", dict(Caps=[0], InitOpts=[["ronly"]], Vals=["nil", "a"], MaxLen=2, Fams=["defrag", "marshal"], depth=2, walks=20, wlen=10)),
+              ("ro-cfg", dict(InitOpts=[["ronly"]], MaxLen=0, Fams=["opts", "life"], OptFlags=ALLFL, depth=2 if q else 3, walks=200 if q else 2000, wlen=30)),
+              ("ro-set", dict(Kinds=["AND", "LIST"], InitOpts=[["ronly"]], MaxLen=1, Vals=["a"], PushLens=[1],
+                              Fams=["settings", "policy", "opts"], OptFlags=["ronly"], depth=2, walks=200 if q else 2000, wlen=30))]
+    traces = [("rand", dict(traces=150 if q else 1500, len=80, fams=["list", "opts", "policy", "life", "settings", "marshal"], mode="all"))]
+    return sm_check(work, v, "C09", tier, tables, traces, ALL_FIELDS,
+                    ["StepProps: ReadOnlyFrame over the whole action alphabet (only SetReadOnly / SetErr change a read-only state; Free returns an error)"],
+                    RO_NOTE, frames=[dict(mode="ronly", seqs=60 if q else 600)])
+
+
+@check("C17")
+def c17(work, v, tier):
+    q = tier == "quick"
+    tables = [("life-list", dict(Caps=[0, 2], Kinds=["AND", "BASIC"], Vals=["nil", "a"], MaxLen=2 if q else 3, IdxMode="all",
+                                 Fams=["list", "life", "marshal", "query"], PushLens=[1, 2],
+                                 depth=2, walks=300 if q else 3000, wlen=30)),
+              ("life-cfg", dict(MaxLen=0, Fams=["opts", "life"], OptFlags=ALLFL, depth=2, walks=100 if q else 1000, wlen=30)),
+              ("life-set", dict(Kinds=["AND", "LIST"], MaxLen=1, Vals=["a"], PushLens=[1], Fams=["settings", "policy", "life"],
+                                depth=2, walks=100 if q else 1000, wlen=30))]
+    traces = [("rand", dict(traces=200 if q else 2000, len=60, fams=["list", "opts", "life", "settings", "marshal", "query"], mode="all"))]
+    return sm_check(work, v, "C17", tier, tables, traces, ALL_FIELDS,
+                    ["StepProps: Inert (a dead handle stays dead, every call returns its zero result, only Marshal initialises)",
+                     "Free => DeadState unless read-only; Reset => e = <<>> with the configuration unchanged"],
+                    "lifecycle: zero / freed / live handles in one state machine (Free, Marshal-as-initialiser, Reset with nil elements) + "
+                    "every exported method of Stack and Condition enumerated by reflection and called on zero and freed receivers with "
+                    "plain and awkward arguments; Frame.tla's InertRule requires no panic, no resurrection (except Marshal / Init), zero results "
+                    "(documented sentinels Kind/ID/Addr/IsEmpty/IsZero/IsPadded and the errors of Valid/IsEqual/Marshal excepted)",
+                    frames=[dict(mode="dead")])
+
+
+C13_FIELDS = ["init", "len", "elems", "cannest", "nesting", "bits", "integ"]
+
+
+@check("C13")
+def c13(work, v, tier):
+    q = tier == "quick"
+    vals = ["nil", "a", "S", "A", "P", "C"]
+    tables = [("nest", dict(Caps=[0, 2], Kinds=["AND", "OR", "NOT", "LIST", "BASIC"] if not q else ["AND", "LIST", "BASIC"], Vals=vals,
+                            MaxLen=2 if q else 3, InitOpts=[[], ["nnest"]], Fams=["grow", "opts"], OptFlags=["nnest"],
+                            PushLens=[1, 2], depth=2, walks=300 if q else 3000, wlen=40))]
+    traces = [("rand", dict(traces=200 if q else 2000, len=60, fams=["list", "opts"], nest=True, nvals=6))]
+    return sm_check(work, v, "C13", tier, tables, traces, C13_FIELDS,
+                    ["StepProps: NoNestPush (with no-nesting on, Push keeps exactly the non-Stack values, in order)",
+                     "OptIndependence / switching the option never changes the content", "Obs: CanNest <=> no-nesting unset, IsNesting <=> some element is Stack-valued"],
+                    "no-nesting on Stacks: push batches mixing native Stacks, aliases, pointers to aliases, Conditions, primitives and nil, "
+                    "interleaved with set / clear / toggle of the option, on every kind; content, CanNest, IsNesting and the raw option bits "
+                    "compared after every step (Condition side: see C06)")
+
+
+C14_FIELDS = ["init", "len", "elems", "err", "integ"]
+
+
+@check("C14")
+def c14(work, v, tier):
+    q = tier == "quick"
+    tables = [("policy", dict(Caps=[0, 1, 2], Vals=["nil", "a", "b"], MaxLen=3, Fams=["grow", "policy"], PushLens=[1, 2, 3],
+                              depth=2, walks=300 if q else 3000, wlen=40))]
+    traces = [("rand", dict(traces=200 if q else 2000, len=60, fams=["list", "policy"], nvals=5, caps="0,1,2,3,5"))]
+    return sm_check(work, v, "C14", tier, tables, traces, C14_FIELDS,
+                    ["StepProps: PolicyDecides (nothing rejected is stored; consult log <= offered; a full stack is never consulted; Err set only after a rejection)"],
+                    "push policy: all batches of length 1-3 over {nil,a,b} against every accept-set (all 8 subsets) with and without capacity; "
+                    "the Go closure records its consult log, which is part of the compared return value (count and order)")
+
+
+C15_FIELDS = ["init", "len", "elems", "cap", "ronly", "err", "integ", "fifo", "bits"]
+
+
+@check("C15")
+def c15(work, v, tier):
+    q = tier == "quick"
+    tables = [("xfer", dict(Caps=[0], Vals=["nil", "a"], MaxLen=3 if q else 4, Fams=["grow", "transfer"], PushLens=[1, 2],
+                            DstCaps=[0, 1, 2, 3] if q else [0, 1, 2, 3, 4, 5], DstOps=["push", "pop", "ronly"], depth=2,
+                            walks=300 if q else 3000, wlen=40)),
+              ("xfer-nn", dict(Caps=[0], Vals=["a", "S"], MaxLen=2, Fams=["grow", "transfer"], PushLens=[1],
+                               DstCaps=[0, 2], DstOps=["push", "nnest"], depth=2, walks=100, wlen=30))]
+    traces = [("rand", dict(traces=200 if q else 2000, len=60, fams=["list", "transfer"], caps="0,1,2,3,5,8", nest=True, nvals=6))]
+    return sm_check(work, v, "C15", tier, tables, traces, C15_FIELDS,
+                    ["StepProps: TransferFrame (source unchanged in every case; true => dst' = dst ++ src; too little room / read-only / zero / "
+                     "foreign destination => false and dst unchanged; enough room and no filter => true)"],
+                    "Transfer: every (source length, destination length, destination capacity) combination within the bounds, destinations "
+                    "handed over as native Stack, alias, pointer to alias and foreign value, read-only / zero destinations, LIFO and FIFO sources "
+                    "with nil elements; both handles observed in full after every step")
+
+
+C18_FIELDS = ["init", "bits", "ronly", "paren", "padded", "cannest", "fifo", "id", "cat", "delim", "sym", "enc", "isenc", "elems", "len", "kind", "integ"]
+
+
+@check("C18")
+def c18(work, v, tier):
+    q = tier == "quick"
+    tables = [("flags", dict(Kinds=["AND"], MaxLen=1, Vals=["a"], PushLens=[1], Fams=["opts", "grow"], OptFlags=ALLFL,
+                             depth=3 if q else 4, walks=300 if q else 3000, wlen=40)),
+              ("settings", dict(Kinds=["AND", "LIST", "BASIC"], MaxLen=0, Fams=["settings", "opts"], OptFlags=["fold", "ronly"],
+                                depth=2, walks=300 if q else 3000, wlen=40))]
+    traces = [("rand", dict(traces=200 if q else 2000, len=80, fams=["opts", "settings", "list"], nvals=4))]
+    return sm_check(work, v, "C18", tier, tables, traces, C18_FIELDS,
+                    ["StepProps: OptIndependence (a switch changes exactly its own flag, nothing else; on / off / toggle semantics)",
+                     "FifoLatch (temporal action property)"],
+                    "options: exhaustive sequences of {set, clear, toggle} x 8 options to depth 3 (quick) / 4 (thorough) with the raw option bits "
+                    "read through the verif hook and the getters compared; ID, category, delimiter (LIST only), symbol (non-LIST only) and "
+                    "encapsulation pairs (duplicate characters refused) in a second instance; random longer mixed sequences validated as traces. "
+                    "Log levels: see the loglevel stage")
 
 
 def replay(prop, path, work):
